@@ -179,6 +179,18 @@ CLAIMED["C19"] = (
     "public description); checksum-valid frames malformed for their type are set aside as the property says.",
     "DESIGN.md §5 C19")
 
+CLAIMED["C18"] = (
+    "model_checking",
+    "packet layouts, checksums, sequence-number rule and receive-side meaning of nine gateway protocols as TLA+ "
+    "operators (WireFormats) with checksum/recoverability/sequence theorems checked by TLC; bytes written by the real "
+    "drivers (async ones under a virtual event loop against recording fake gateways) judged by TLC (WireJudge)",
+    "Every command kind (16/24 bit, with/without device type, send twice, query) with random addresses on the four "
+    "async drivers incl. > 600 consecutive Tridonic sends, every 97th (quick) / every (thorough) 16-bit frame on "
+    "daliserver / ATX / legacy drivers, unsupported lengths, all daliserver status codes and the legacy extract() tables.",
+    "Trusted: TLC; protocol layouts taken from the drivers' own documentation (SCI transmit alignment and LUBA "
+    "priority classes are pins, no independent document available offline).",
+    "DESIGN.md §5 C18")
+
 NOT_YET = {}
 
 
